@@ -29,12 +29,13 @@ def gen_sequences(chk, thorough):
                 out.append((w, list(t)))
     # run-structured sequences around the 8-value, 63-group and multi-byte-header boundaries
     pts = [0, 1, 6, 7, 8, 9, 15, 16, 17]
-    big = [495, 496, 503, 504, 505, 511, 512, 513, 1007, 1008, 1009]
+    # 63..72: RLE headers around the one-byte varint limit (run of 64 = header 0x80); 8191..8264: two-byte limit
+    big = [63, 64, 65, 71, 72, 495, 496, 503, 504, 505, 511, 512, 513, 1007, 1008, 1009, 8191, 8192, 8193, 8199, 8200, 8255, 8256, 8264]
     for w in (1, 2, 3, 4):
         m = 1 << w
         for a in pts + big:
-            for b in pts:
-                for c in (0, 1, 7, 8, 9):
+            for b in (pts if a < 2000 else [0, 7]):
+                for c in ((0, 1, 7, 8, 9) if a < 2000 else (0, 8)):
                     x, y = chk.rng.randrange(m), chk.rng.randrange(m)
                     mixed = [(i % (m - 1)) + 1 if m > 2 else i % 2 for i in range(b)]
                     out.append((w, [x] * a + mixed + [y] * c))
